@@ -102,7 +102,10 @@ def imInsert {β : Type} (k : Name) (v : β) : List (Name × β) → List (Name 
 def imCollect {β : Type} (fs : List (Name × β)) : List (Name × β) :=
   fs.foldl (fun m p => imInsert p.1 p.2 m) []
 
-partial def sValue : PValue → Sexp
+mutual
+/-- an object literal is printed as the `IndexMap` it is stored in (`imCollect` only looks at the
+    keys, so collecting before or after printing the member values is the same) -/
+def sValue : PValue → Sexp
   | .var n => .list [.atom "v", sName n]
   | .int i => .list [.atom "i", ofInt i]
   | .float b => .list [.atom "fl", ofNat b]
@@ -110,8 +113,15 @@ partial def sValue : PValue → Sexp
   | .bool b => .list [.atom "b", ofBool b]
   | .null => .atom "null"
   | .enum n => .list [.atom "e", sName n]
-  | .list xs => .list (.atom "l" :: xs.map sValue)
-  | .obj fs => .list (.atom "o" :: (imCollect fs).map (fun p => .list [sName p.1, sValue p.2]))
+  | .list xs => .list (.atom "l" :: sValues xs)
+  | .obj fs => .list (.atom "o" :: (imCollect (sFields fs)).map (fun p => .list [sName p.1, p.2]))
+def sValues : List PValue → List Sexp
+  | [] => []
+  | x :: xs => sValue x :: sValues xs
+def sFields : List (Name × PValue) → List (Name × Sexp)
+  | [] => []
+  | (k, v) :: fs => (k, sValue v) :: sFields fs
+end
 
 def sArgs (as : List (Name × PValue)) : Sexp := .list (as.map (fun p => .list [sName p.1, sValue p.2]))
 
@@ -121,12 +131,17 @@ def sType : PType → Sexp
 
 def sDirs (ds : List PDirective) : Sexp := .list (ds.map (fun d => .list [sName d.name, sArgs d.args]))
 
-partial def sSel : PSel → Sexp
-  | .field a n as ds ss => .list [.atom "f", sOptName a, sName n, sArgs as, sDirs ds, .list (ss.map sSel)]
+mutual
+def sSel : PSel → Sexp
+  | .field a n as ds ss => .list [.atom "f", sOptName a, sName n, sArgs as, sDirs ds, .list (sSelList ss)]
   | .spread n ds => .list [.atom "spread", sName n, sDirs ds]
-  | .inline tc ds ss => .list [.atom "inline", sOptName tc, sDirs ds, .list (ss.map sSel)]
+  | .inline tc ds ss => .list [.atom "inline", sOptName tc, sDirs ds, .list (sSelList ss)]
+def sSelList : List PSel → List Sexp
+  | [] => []
+  | s :: ss => sSel s :: sSelList ss
+end
 
-def sSels (ss : List PSel) : Sexp := .list (ss.map sSel)
+def sSels (ss : List PSel) : Sexp := .list (sSelList ss)
 
 def sVarDef (v : PVarDef) : Sexp :=
   .list [.atom "var", sName v.name, sType v.ty, sDirs v.dirs,
